@@ -508,9 +508,13 @@ def check_round_protocol(ck, P, rid):
     else:
         s0 = flips[0]
         bad = None
+        # the state variable may already have been advanced when the colour is updated
+        adv = [u for u in g.walk() if u.k == "UnaryOperator" and u.op in ("++", "--") and X.show(X.strip(u.children[0])) == "node_phase" and g.cfg.dominates(u, s0)
+               and _case_label_of(g, u) == _case_label_of(g, s0)]
+        shift = sum(1 if u.op == "++" else -1 for u in adv)
         for col in (0, 1):
             for ph, want_flip in ((first, True), (second, False)):
-                env = {"gvt_phase": col, "node_phase": ph}
+                env = {"gvt_phase": col, "node_phase": ph + shift}
                 if s0.k == "CompoundAssignOperator":
                     v = ceval.ev(s0.children[1], env)
                     new = None if v is None else {"^=": col ^ v, "+=": col + v, "-=": col - v}.get(s0.op)
